@@ -378,7 +378,7 @@ func gen(args ...string) func(bin, dir string) (int, string, map[string]string) 
 	return func(bin, dir string) (int, string, map[string]string) {
 		a := append(append([]string{}, args...), "-f", filepath.Join(dir, "spec.json"), "-t", dir)
 		r := gorun.Swagger(bin, dir, 180*time.Second, a...)
-		h, files := hashTree(dir, map[string]bool{"go.mod": true, "go.sum": true, "spec.json": true, "spec2.json": true, "scanme/doc.go": true})
+		h, files := hashTree(dir, map[string]bool{"go.mod": true, "go.sum": true, "spec.json": true, "spec2.json": true, "mix1.json": true, "mix2.json": true, "mix3.json": true, "mix4.json": true, "scanme/doc.go": true})
 		return r.Exit, h, files
 	}
 }
@@ -447,6 +447,26 @@ var commands = []command{
 	{"mixin", outfile("mixed.json", func(dir, o string) []string {
 		return []string{"mixin", filepath.Join(dir, "spec.json"), filepath.Join(dir, "spec2.json"), "-o", o}
 	})},
+	// several mixed-in documents that collide with one another (a definition, a path, a response) and each add array entries:
+	// the result depends on their order, which is the order of the command line
+	{"mixin (five documents)", outfile("mixed5.json", func(dir, o string) []string {
+		return []string{"mixin", filepath.Join(dir, "spec.json"), filepath.Join(dir, "mix1.json"), filepath.Join(dir, "mix2.json"), filepath.Join(dir, "mix3.json"), filepath.Join(dir, "mix4.json"), "-o", o}
+	})},
+}
+
+func mixDoc(i int) []byte {
+	typ := []string{"string", "integer", "boolean", "number"}[i%4]
+	doc := map[string]interface{}{"swagger": "2.0", "info": map[string]interface{}{"title": fmt.Sprintf("mix %d", i), "version": "1"},
+		"consumes": []string{fmt.Sprintf("application/x-mix%d", i)}, "produces": []string{fmt.Sprintf("application/x-mix%d", i)}, "schemes": []string{[]string{"http", "https", "ws", "wss"}[i%4]},
+		"tags": []interface{}{map[string]interface{}{"name": fmt.Sprintf("mix%d", i)}},
+		"paths": map[string]interface{}{
+			"/shared":               map[string]interface{}{"get": map[string]interface{}{"operationId": "sharedOp", "responses": map[string]interface{}{"200": map[string]interface{}{"description": fmt.Sprintf("from mix %d", i)}}}},
+			fmt.Sprintf("/mix%d", i): map[string]interface{}{"get": map[string]interface{}{"operationId": "listAlpha", "responses": map[string]interface{}{"200": map[string]interface{}{"description": "ok"}}}}},
+		"definitions": map[string]interface{}{"SharedThing": map[string]interface{}{"type": typ, "description": fmt.Sprintf("from mix %d", i)}},
+		"responses":   map[string]interface{}{"SharedResponse": map[string]interface{}{"description": fmt.Sprintf("from mix %d", i)}},
+		"parameters":  map[string]interface{}{"sharedParam": map[string]interface{}{"name": "p", "in": "query", "type": typ}}}
+	b, _ := json.Marshal(doc)
+	return b
 }
 
 func prepare(dir string) {
@@ -456,6 +476,9 @@ func prepare(dir string) {
 	}
 	_ = os.WriteFile(filepath.Join(dir, "spec.json"), wideSpec(1), 0o644)
 	_ = os.WriteFile(filepath.Join(dir, "spec2.json"), wideSpec(2), 0o644)
+	for i := 1; i <= 4; i++ {
+		_ = os.WriteFile(filepath.Join(dir, fmt.Sprintf("mix%d.json", i)), mixDoc(i), 0o644)
+	}
 	_ = os.MkdirAll(filepath.Join(dir, "scanme"), 0o755)
 	_ = os.WriteFile(filepath.Join(dir, "scanme", "doc.go"), []byte(scanPkg), 0o644)
 }
